@@ -103,9 +103,71 @@ def run_ordered_chain(doc: dict) -> dict:
     return res
 
 
+def gen_private_branches(rng: random.Random) -> dict:
+    return {"kind": "private_branches", "entry": rng.choice(["pbA", "pbB"]), "order_seed": rng.randrange(1 << 30), "cfg": gen.gen_async_cfg(rng, allow_hold=False)}
+
+
+def run_private_branches(doc: dict) -> dict:
+    """Explicit edges=: two exclusive branches produce one name, and each feeds it to a consumer OF ITS OWN (A -> RA, B -> RB).
+    Entered at one branch, the other branch's consumer is outside the scope: it never runs and its inputs are not asked for."""
+    from hgsim.case import enters
+
+    res = empty_result()
+    nodes = [
+        {"kind": "ifelse", "name": "pbg", "params": [{"name": "pbf"}], "when_true": "pbA", "when_false": "pbB", "decide": {"op": "const", "value": True}},
+        {"kind": "fn", "name": "pbA", "params": [{"name": "pbv"}], "outs": ["pbx"]},
+        {"kind": "fn", "name": "pbB", "params": [{"name": "pbv"}], "outs": ["pbx"]},
+        {"kind": "fn", "name": "pbRA", "params": [{"name": "pbx"}, {"name": "pbka"}], "outs": ["pbra"]},
+        {"kind": "fn", "name": "pbRB", "params": [{"name": "pbx"}, {"name": "pbkb"}], "outs": ["pbrb"]},
+    ]
+    order = list(range(len(nodes)))
+    random.Random(doc["order_seed"]).shuffle(order)
+    spec = {"name": "top", "nodes": nodes, "order": order, "entrypoints": [doc["entry"]],
+            "explicit_edges": [["pbg", "pbA"], ["pbg", "pbB"], ["pbA", "pbRA", ["pbx"]], ["pbB", "pbRB", ["pbx"]]]}
+    mine, other = ("pbRA", "pbRB") if doc["entry"] == "pbA" else ("pbRB", "pbRA")
+    other_key = "pbkb" if doc["entry"] == "pbA" else "pbka"
+    viol: list = []
+    rts = []
+    try:
+        for mode in ("sync", "async"):
+            w = run_world(copy.deepcopy(spec), lambda graph: {n_: 5 for n_ in graph.inputs.required}, mode=mode, cfg=doc["cfg"] if mode == "async" else None, run_kwargs={"error_handling": "continue"})
+            rts.append(w["rt"])
+            res["runs"] += 1
+            out = w["out"]
+            tag = f"{mode}[private_branches]"
+            req = set(w["graph"].inputs.required)
+            if other_key in req:
+                viol.append((f"{tag}:input_of_a_node_outside_the_scope_is_required", {"entry": doc["entry"], "required": sorted(req), "order": order}))
+                continue
+            if out["status"] != "completed":
+                viol.append((f"{tag}:scoped_run_not_completed", {"status": out["status"], "error": out["error"], "entry": doc["entry"]}))
+                continue
+            ran = {h["n"] for h in enters(w["rt"])}
+            if other in ran or ran & {"pbg", "pbA" if doc["entry"] == "pbB" else "pbB"}:
+                viol.append((f"{tag}:node_outside_entry_point_scope_executed", {"entry": doc["entry"], "ran": sorted(ran), "order": order}))
+            if not {doc["entry"], mine} <= ran:
+                viol.append((f"{tag}:node_inside_entry_point_scope_never_ran", {"entry": doc["entry"], "ran": sorted(ran), "order": order}))
+    except BuildError as e:
+        res["discard"] = "build_error"
+        res["detail"] = str(e)[:200]
+        return res
+    res["violations"] = viol
+    res["nontrivial"] = True
+    res["stats"]["private_branches_cases"] = 1
+    res["stats"]["probe_entrypoints_excluded_nodes"] = 1
+    res["shape"] = digest(["private_branches", doc["entry"], order], 8)
+    res["sched"] = "-"
+    res["sig"] = res["shape"]
+    res["hdigest"] = hist_digest(rts)
+    return res
+
+
 def gen_case(rng: random.Random, tier: str) -> dict:
-    if rng.random() < 0.025:
+    r0 = rng.random()
+    if r0 < 0.025:
         return gen_ordered_chain(rng)
+    if r0 < 0.04:
+        return gen_private_branches(rng)
     feats = {**gen.gen_feats(rng), "loops": False}
     g = gen.gen_program(rng, feats=feats, max_nodes=9 if tier == "thorough" else 7)
     if rng.random() < 0.06:
@@ -272,6 +334,8 @@ def _effective(doc: dict, outs: list[str]) -> list[str] | None:
 def run_case(doc: dict) -> dict:
     if doc.get("kind") == "ordered_chain":
         return run_ordered_chain(doc)
+    if doc.get("kind") == "private_branches":
+        return run_private_branches(doc)
     res = empty_result()
     g = doc["graph"]
     viol: list = []
@@ -540,6 +604,10 @@ def run_case(doc: dict) -> dict:
 def shrink_candidates(doc: dict):
     from checks.c02 import shrink_program
 
+    if doc.get("kind") == "private_branches":
+        if doc["order_seed"]:
+            yield dict(doc, order_seed=0)
+        return
     if doc.get("kind") == "ordered_chain":
         if doc["stages"] > 1:
             yield dict(doc, stages=doc["stages"] - 1)
@@ -586,6 +654,8 @@ def signature(doc: dict, cls: str, detail) -> str:
 def sample_repr(doc: dict, res: dict):
     from checks.c02 import sample_repr as sr
 
+    if doc.get("kind") == "private_branches":
+        return {"template": "explicit edges: two exclusive producers of one name, each with a consumer of its own", "entry": doc["entry"]}
     if doc.get("kind") == "ordered_chain":
         return {"template": "ordered pipeline whose stages re-produce the name they read", "entry": doc["entry"], "stages": doc["stages"]}
 
